@@ -302,6 +302,9 @@ func (m *ldMachine) genOp(rt *rapid.T, i int) ldOp {
 	}
 	if cfg.Liq != nil {
 		kinds = append(kinds, "crash", "crash", "crash", "block", "block", "liqmsg", "liqmsg", "bid", "bid", "bid")
+		if m.prop == "C10" {
+			kinds = append(kinds, "bid", "bid", "bid", "bid", "bid", "crash", "liqmsg")
+		}
 	}
 	k := rapid.SampledFrom(kinds).Draw(rt, lbl("kind"))
 	op := ldOp{K: k}
@@ -1003,6 +1006,41 @@ func (m *ldMachine) invariants(i int, op ldOp) {
 		}
 	}
 	_ = authtypes.ModuleName
+	if m.cs.Cfg.Liq != nil {
+		m.auctionCustodyLend(i, op)
+	}
+}
+
+// auctionCustodyLend: the auction module holds, per denomination, exactly what the live auctions of seized borrows
+// account for: the collateral not yet sold and the debt already paid in by partial bids (handed to the lending pool
+// only when the auction closes). Nothing else uses the auction module in this world, so any other balance is an
+// unaccounted remainder of a closed auction (or a shortfall of a live one).
+func (m *ldMachine) auctionCustodyLend(i int, op ldOp) {
+	c := m.c
+	want := map[string]sdk.Int{}
+	for ai := range m.cs.Cfg.Assets {
+		want[ldDenom(ai)] = sdk.ZeroInt()
+	}
+	live := 0
+	for _, a := range c.App.NewaucKeeper.GetAuctions(c.Ctx) {
+		lv, ok := c.App.NewliqKeeper.GetLockedVault(c.Ctx, a.AppId, a.LockedVaultId)
+		if !ok {
+			m.fail("C10.auction-has-its-locked-record", "lend", "step %d: auction %d has no locked record", i, a.AuctionId)
+		}
+		live++
+		want[a.CollateralToken.Denom] = want[a.CollateralToken.Denom].Add(a.CollateralToken.Amount)
+		paid := lv.TargetDebt.Amount.Sub(a.DebtToken.Amount)
+		if paid.IsNegative() {
+			m.fail("C10.bidders-pay-at-most-the-target-debt", "lend", "step %d: auction %d still asks %s of a target of %s", i, a.AuctionId, a.DebtToken, lv.TargetDebt)
+		}
+		want[a.DebtToken.Denom] = want[a.DebtToken.Denom].Add(paid)
+	}
+	for ai := range m.cs.Cfg.Assets {
+		d := ldDenom(ai)
+		if have := c.ModBal(auctypes.ModuleName, d); !have.Equal(want[d]) {
+			m.fail("C10.auction-custody-fully-accounted", "lend,after:"+op.K, "step %d: auction custody holds %s%s; the %d live auctions account for %s (unsold collateral + debt paid in by partial bids)", i, have, d, live, want[d])
+		}
+	}
 }
 
 func (m *ldMachine) finish() {
@@ -1106,4 +1144,34 @@ func init() {
 		}
 		m.finish()
 	}
+}
+
+// TestC10_borrows runs the lend-liquidation histories for the auction-custody accounting (auctionCustodyLend).
+func TestC10_borrows(t *testing.T) {
+	r := rec.New("C10", "borrows")
+	t.Cleanup(r.Flush)
+	rapid.Check(t, func(rt *rapid.T) {
+		r.Guard(func() {
+			r.Eval()
+			cs := &ldCase{Cfg: genLdCfg(rt)}
+			cs.Cfg.Liq = genLdLiq(rt)
+			m := newLdMachine(rt, r, "C10", cs)
+			n := rapid.IntRange(20, 70).Draw(rt, "nops")
+			for i := 0; i < n; i++ {
+				op := m.genOp(rt, i)
+				cs.Ops = append(cs.Ops, op)
+				m.apply(i, op)
+			}
+			m.finish()
+			if m.nAucClosed > 0 && m.ok["bid"] >= 2 {
+				r.NonTrivialSig(rec.Sig(cs), func() interface{} {
+					return map[string]interface{}{"ops": len(cs.Ops), "seized": m.nSeized, "bids": m.ok["bid"], "auctions_closed": m.nAucClosed}
+				})
+			}
+		})
+	})
+}
+
+func init() {
+	replayers["C10.borrows"] = replayers["C09.borrows"]
 }
